@@ -222,10 +222,10 @@ def judge(case):
         if f not in ref_ns:
             continue
         try:
-            ref_args = [eval(a, {}) for a in spec['args']]
-            ref_kwargs = {k: eval(v, {}) for k, v in spec['kwargs'].items()}
-            sb_args = [eval(a, {}) for a in spec['args']]
-            sb_kwargs = {k: eval(v, {}) for k, v in spec['kwargs'].items()}
+            ref_args = [eval(a, dict(CS1.ARG_NAMESPACE)) for a in spec['args']]
+            ref_kwargs = {k: eval(v, dict(CS1.ARG_NAMESPACE)) for k, v in spec['kwargs'].items()}
+            sb_args = [eval(a, dict(CS1.ARG_NAMESPACE)) for a in spec['args']]
+            sb_kwargs = {k: eval(v, dict(CS1.ARG_NAMESPACE)) for k, v in spec['kwargs'].items()}
         except Exception:
             continue
         if any(isinstance(a, (list, tuple, dict, set, frozenset, range)) for a in ref_args + list(ref_kwargs.values())):
